@@ -6,7 +6,8 @@ from vlib import core
 
 WRAP = "-Wl,--wrap=tls_record_send,--wrap=tls_record_recv,--wrap=sm2_do_ecdh,--wrap=tls_pre_master_secret_generate,--wrap=tls_record_set_handshake_certificate,--wrap=hkdf_expand,--wrap=tls_uint24array_to_bytes,--wrap=sm2_sign_finish"
 PROTOS = ["tlcp", "tls12", "tls13"]
-DEFECTS = ["untrusted-root", "forged-intermediate", "expired", "not-yet-valid", "issuer-not-ca", "bad-cert-sig", "cert-other-sigalg", "key-mismatch"]
+DEFECTS = ["untrusted-root", "forged-intermediate", "expired", "not-yet-valid", "issuer-not-ca", "bad-cert-sig", "cert-other-sigalg", "key-mismatch",
+           "anchor-lookalike", "anchor-lookalike-deep", "anchor-lookalike-not-sent", "issuer-no-extensions", "issuer-no-extensions-deep", "issuer-not-ca-deep"]
 
 
 def fields(line):
@@ -89,6 +90,22 @@ def run(ctx):
                     # the same row with client authentication requested as well (the client then walks the
                     # CertificateRequest branch before it checks the server)
                     cases.append(("auth %s %s %s %d 1" % (p, role, d, seeds[0]), "auth:%s:client-verifies(mutual):%s" % (p, d), role, d))
+    # observer: the ServerKeyExchange signature of an honest TLS 1.2 session covers randoms || ServerECDHParams WITH the point
+    scases = ["skesig %d %d" % (a, sd) for a in (0, 1) for sd in seeds]
+    souts, _ = core.run_lines(exe, scases, shards=len(scases))
+    for line, out in zip(scases, souts):
+        ctx.cov["evaluations"] += 1
+        ctx.count("op:skesig")
+        rep = {"kind": "failing-input", "op": line, "impl": out[:300], "variant": "asan"}
+        f = fields(out) if "=" in out else {}
+        if f.get("rc") != "1" or f.get("rs") != "1":
+            ctx.violation("skesig:control", "honest TLS 1.2 session does not complete: %s [%s]" % (out[:120], line), rep)
+        elif f.get("skesig") != "1":
+            ctx.violation("skesig:tls12:signature-does-not-cover-params", "the captured ServerKeyExchange signature does not verify over client_random || server_random || ServerECDHParams (curve type, curve, length, 65-octet point): %s [%s]" % (out, line), rep)
+        elif f.get("otherpoint") != "0":
+            ctx.violation("skesig:tls12:signature-valid-for-another-point", "the captured ServerKeyExchange signature also verifies with another ECDHE point in the signed bytes: %s [%s]" % (out, line), rep)
+        else:
+            ctx.cell("skesig:tls12:auth%s:covers-point" % line.split()[1])
     outs, _ = core.run_lines(exe, [c[0] for c in cases], shards=12)
     for (line, cell, role, d), out in zip(cases, outs):
         ctx.cov["evaluations"] += 1
